@@ -206,6 +206,26 @@ def base_buffers(name):
     if name == "sense":
         from vf.sim.target import desc_sense, fixed_sense
         out += [("wellformed", fixed_sense(5, 0x24, 0)), ("wellformed", desc_sense(6, 0x29, 0) + bytes([0x00, 0x0A]) + bytes(10))]
+    if name in ("transportid", "prfull"):
+        # iSCSI TransportIDs (format 01b) whose text carries the ",i,0x" separator more than once, at the start, at the end, doubled:
+        # whatever the decoder makes of them (a value or a refusal), it makes it in proportional work
+        def tid_text(text, fmt=1):
+            body = text.encode() + b"\0"
+            body += b"\0" * (-len(body) % 4)
+            return bytes([(fmt << 6) | 5, 0, len(body) >> 8, len(body) & 0xFF]) + body
+        texts = ["iqn.2001-04.com.example:host,i,0x0001,i,0x00023d000001", ",i,0x,i,0x,i,0x", "iqn.x,i,0x1,i,0x2,i,0x3,i,0x4,i,0x5", ",i,0x" * 12,
+                 "a,i,0xb,i,0x", ",i,0xabc", "iqn.x,i,0x"]
+        for t in texts:
+            tid = tid_text(t)
+            if name == "transportid":
+                out.append(("wellformed", tid))
+            else:
+                desc = bytearray(24)
+                desc[12] = 0x01
+                desc[13] = 0x05
+                desc[20:24] = len(tid).to_bytes(4, "big")
+                full = bytes(4) + (24 + len(tid)).to_bytes(4, "big") + bytes(desc) + tid
+                out.append(("wellformed", full))
     if name == "transportid":
         from vf.spec import responses as R
         out += [("wellformed", R.transport_id(t)) for t in c04.TIDS]
